@@ -475,12 +475,15 @@ static CaptureList *capture_list_pool_get_mut(CaptureListPool *self, uint32_t id
 }
 
 static bool capture_list_pool_is_empty(const CaptureListPool *self) {
-  // The capture list pool is empty if all allocated lists are in use, and we
-  // have reached the maximum allowed number of allocated lists.
-  return self->free_capture_list_count == 0 && self->list.size >= self->max_capture_list_count;
+  // The capture list pool is empty if as many lists are in use as the maximum
+  // allows. (More lists than that may have been allocated before the maximum
+  // was lowered; the spare ones do not count.)
+  return self->list.size - self->free_capture_list_count >= self->max_capture_list_count;
 }
 
 static uint32_t capture_list_pool_acquire(CaptureListPool *self) {
+  if (capture_list_pool_is_empty(self)) return CAPTURE_LIST_NONE;
+
   // First see if any already allocated capture list is currently unused.
   if (self->free_capture_list_count > 0) {
     for (uint32_t i = 0; i < self->list.size; i++) {
